@@ -95,12 +95,13 @@ where
     T: Number,
     usize: Cast<T>,
 {
-    let len = b - a;
-    let steps = (len / step).ceil();
+    // number of elements start, start + step, ... strictly before end: ceil((end - start) / step),
+    // computed in f64 (integer division truncates, and unsigned types cannot hold a negative span)
+    let steps = ((b.f64() - a.f64()) / step.f64()).ceil();
     Linspace {
         start: a,
         step,
-        len: steps.cast(),
+        len: if steps > 0. { steps as usize } else { 0 },
         index: 0,
     }
 }
